@@ -20,6 +20,7 @@ type Sorts struct {
 	strLits map[string]string
 	fltLits map[string]string
 	nbox   int
+	boxTag map[string]int
 	nfresh  int
 	nameOwner map[string]string
 }
@@ -37,7 +38,7 @@ type fieldInfo struct {
 }
 
 func newSorts() *Sorts {
-	s := &Sorts{seen: map[string]bool{}, declSeen: map[string]bool{}, structs: map[string]*structInfo{}, byType: map[string]string{}, strLits: map[string]string{}, fltLits: map[string]string{}}
+	s := &Sorts{seen: map[string]bool{}, boxTag: map[string]int{}, declSeen: map[string]bool{}, structs: map[string]*structInfo{}, byType: map[string]string{}, strLits: map[string]string{}, fltLits: map[string]string{}}
 	s.sortDecls = append(s.sortDecls,
 		"(declare-datatypes ((Slice 0)) (((mk_Slice (sl_arr Int) (sl_off Int) (sl_len Int) (sl_cap Int)))))",
 		"(declare-sort Str 0)",
@@ -145,7 +146,7 @@ func (s *Sorts) boxFun(tn, so string) string {
 	s.declareFun("mi_inv_"+tn, []string{"Int"}, so)
 	s.declareFun("itype", []string{"Int"}, "Int")
 	s.nbox++
-	s.decls = append(s.decls, fmt.Sprintf("(assert (forall ((q!b %s)) (! (and (= (mi_inv_%s (%s q!b)) q!b) (= (itype (%s q!b)) %d) (> (%s q!b) 0)) :pattern ((%s q!b)))))", so, tn, fn, fn, s.nbox, fn, fn))
+	s.boxTag[fn] = s.nbox
 	return fn
 }
 
